@@ -460,6 +460,21 @@ func (g *Gen) callStatic(st *BState, in ssa.Instruction, callee *ssa.Function, a
 	g.calls = append(g.calls, rec)
 	a, pos := g.anchor(in.Pos())
 	g.callSiteObls(st, in, callee, rec, argVals, a, pos, guard)
+	if g.con != nil && g.con.HasCallees && g.eng.isTarget(callee) {
+		ok := false
+		for _, c := range g.con.Callees {
+			if c == callee.Name() {
+				ok = true
+			}
+		}
+		if !ok {
+			props := g.con.CalleeTags
+			if len(props) == 0 {
+				props = g.allProps()
+			}
+			g.addObl(st, "R", a+":callee-not-allowed:"+callee.Name(), pos, props, "false", "the contract lists the repository functions this function may call ("+strings.Join(g.con.Callees, ", ")+"); "+callee.Name()+" is not among them")
+		}
+	}
 	calleeInv := g.eng.participates(callee) && g.fn.Pkg != nil && callee.Pkg != nil && g.fn.Pkg.Pkg == callee.Pkg.Pkg
 	if calleeInv || (con != nil && con.NeedsInv) {
 		g.checkPkgInvs(st, "P", a+":pkginv:", pos, guard)
